@@ -121,6 +121,9 @@ func ParseField(v reflect.Value, bytes []byte, params fieldParameters) error {
 	// We deal with the structures defined in this package first.
 	switch fieldType {
 	case BitStringType:
+		if len(bytes) <= talOff || bytes[talOff] > 7 || (len(bytes) == talOff+1 && bytes[talOff] != 0) {
+			return fmt.Errorf("BIT STRING without a valid unused-bits octet")
+		}
 		val, parse_err := parseBitString(bytes[talOff:])
 		if parse_err != nil {
 			return parse_err
